@@ -1,12 +1,37 @@
 (* correspondence cases for C01 *)
 From Coq Require Import List Bool ZArith.
 From Otto Require Import Common.Corr.
+From Otto Require Export C01.Full.
 From Otto Require Export C01.Sem C01.Wf C01.Lang.
 Import ListNotations.
 Open Scope Z_scope.
 
 Inductive case :=
-| Case (mode : Z) (p : prog) (obs_log : list val) (obs_outcome : outcome) (routes_agree : bool).
+| Case (mode : Z) (p : prog) (obs_log : list val) (obs_outcome : outcome) (routes_agree : bool)
+(* MiniJS+ (C01/Full.v): the reference semantics is the model; global code only *)
+| FCase (p : list Full.stmt) (obs_log : list Full.val) (obs_outcome : Full.outcome) (routes_agree : bool).
+
+Definition fval_eqb (a b : Full.val) : bool :=
+  match a, b with
+  | WUndef, WUndef | WNull, WNull | WNaN, WNaN | WBig, WBig => true
+  | WBool x, WBool y => Bool.eqb x y
+  | WNum n, WNum m => n =? m
+  | WStr x, WStr y => Full.str_eqb x y
+  | WRef _, WRef _ => true            (* object identity is not observed *)
+  | WErr j, WErr k => j =? k
+  | _, _ => false
+  end.
+Definition fout_eqb (a b : Full.outcome) : bool :=
+  match a, b with
+  | FNormal, FNormal => true
+  | FThrew v, FThrew w => fval_eqb v w
+  | _, _ => false
+  end.
+Definition fobs_eqb (a b : list Full.val * Full.outcome) : bool :=
+  list_eqb fval_eqb (fst a) (fst b) && fout_eqb (snd a) (snd b).
+Definition fhas_big (l : list Full.val) (o : Full.outcome) : bool :=
+  existsb (fun v => fval_eqb v WBig) l || match o with FThrew v => fval_eqb v WBig | _ => false end.
+Definition ffuel : nat := 700.
 
 Definition val_eqb (a b : val) : bool :=
   match a, b with
@@ -55,5 +80,14 @@ Definition verdict (c : case) : Z * Z :=
         if negb agree then (3, 9) else
         judge obs_eqb (lg, oc) (out so, project mode oo) (out ss, project mode os)
               (if wf (SBlock p) then 0 else 1)
+      end
+  | FCase p lg oc agree =>
+      let '(ml, mo) := Full.run_program ffuel p in
+      match mo with
+      | FOutOfFuel | FDeclined => declined
+      | _ =>
+        if fhas_big ml mo then declined
+        else if negb agree then (3, 9)
+        else judge fobs_eqb (lg, oc) (ml, mo) (ml, mo) 0
       end
   end.
